@@ -164,6 +164,15 @@ CHECKS = {
             "The dispatcher double keeps the blocking contract of the real dispatchers (which are not exercised themselves); "
             "top-level order is not asserted, only counts after close-out.",
             "5/C16"),
+    "C17": ("exploration",
+            "model-based generated histories (message / reinstall / restart, auto-trust on/off/unset) over real client stacks "
+            "against the server double; pin model as oracle, the owner's SQLite store read through a separate connection",
+            "Accounts reinstall with a fresh profile (new identity, new key upload); after every settled operation the model "
+            "decides whether the message must be delivered (both sides accept the other's current identity: unknown, pinned-equal "
+            "or auto-trust) and the pinned keys are read from each owner's key store with plain sqlite3, also after restarts.",
+            "One-to-one messages, FIFO delivery; whether a refused sender's identity gets pinned by the recipient depends on the "
+            "ratchet state and is resolved against the store (absent or the sender's current key).",
+            "5/C17"),
     "C18": ("exploration",
             "Hypothesis-generated stack shapes executed against a reference interpreter of data/event semantics; default "
             "helpers enumerated over all flag combinations",
